@@ -274,7 +274,14 @@ class ExtMixin:
                     step = a[2]
             return R(Sym(st.fresh_name("range"), "range", lo=lo, hi=hi, step=step, notnone=True))
         if name == "zip" and len(args) >= 1:
-            seqs = [self.seq_items(x, st) for x in args]
+            def _items(x):
+                xs = self.seq_items(x, st)
+                if xs is None and isinstance(norm(x), Sym) and norm(x).ty == "range":
+                    lo_, hi_, sp_ = [const_of(norm(norm(x).attrs.get(k_))) if norm(x).attrs.get(k_) is not None else None for k_ in ("lo", "hi", "step")]
+                    if isinstance(lo_, int) and isinstance(hi_, int) and isinstance(sp_, int) and sp_ != 0 and abs((hi_ - lo_) // sp_) <= 512:
+                        xs = [Const(v_) for v_ in range(lo_, hi_, sp_)]
+                return xs
+            seqs = [_items(x) for x in args]
             if all(s_ is not None for s_ in seqs):
                 n_ = min(len(s_) for s_ in seqs)
                 return R(Seq([Seq([s_[i] for s_ in seqs], "tuple") for i in range(n_)], "tuple"))
@@ -622,6 +629,11 @@ class ExtMixin:
                         cell.items.append(it_)
                     self.note_mutation(st, fr, node, base)
                     return R(Const(None))
+            if attr == "insert" and len(a) == 2 and base.kind in ("list", "bytearray") and not cell.opaque and isinstance(const_of(a[0]), int):
+                self.event(st, fr, "insert", node, (base, a, path_text(node.func.value)))
+                self.note_mutation(st, fr, node, base)
+                cell.items.insert(const_of(a[0]), args[1] if isinstance(args[1], Ref) else a[1])
+                return R(Const(None))
             if attr == "pop":
                 self.event(st, fr, "pop", node, (base, a[0] if a else None, path_text(node.func.value)))
                 self.note_mutation(st, fr, node, base)
